@@ -1092,6 +1092,17 @@ pub fn params(cx: &mut Raw) {
     for (name, f) in positions.iter() {
         params_record(cx, &f(q()), name);
     }
+    // a variable read outside a macro body although the macro's loop variable has the same name
+    for (name, t) in [
+        ("receiver-named-like-loop-variable", mcall(q(), "map", vec![q(), bin("+", q(), lit(V::Int(1)))])),
+        ("receiver-named-like-loop-variable", mcall(q(), "all", vec![q(), bin(">", q(), lit(V::Int(0)))])),
+        ("receiver-list-named-like-loop-variable", mcall(T::List(vec![q()]), "filter", vec![q(), lit(V::Bool(true))])),
+        ("chained-macros-reusing-the-name", mcall(mcall(id("xs"), "filter", vec![q(), bin(">", q(), id("lim"))]), "map", vec![id("xs"), bin("*", id("xs"), lit(V::Int(2)))])),
+        ("reduce-seed-named-like-accumulator", mcall(id("xs"), "reduce", vec![q(), id("e"), bin("+", q(), id("e")), q()])),
+        ("sibling-argument-named-like-loop-variable", call("size", vec![T::List(vec![mcall(id("xs"), "map", vec![q(), q()]), q()])])),
+    ] {
+        params_record(cx, &t, name);
+    }
     for (n1, f1) in positions.iter() {
         for (n2, f2) in positions.iter() {
             if n1 == n2 && !cx.thorough {
